@@ -248,6 +248,39 @@ class PathCtx:
             status = "holds"
         else:
             status = "unknown"
+            # the solver could not decide PC /\ not(cond): try models of the path condition alone as candidate
+            # counterexamples (any model that falsifies cond is a genuine counterexample; it is replayed anyway)
+            import random as _rnd
+            rng = _rnd.Random(12345 + len(self.results))
+            pool = [Fraction(p_, q_) for p_, q_ in ((1, 3), (2, 3), (1, 2), (3, 4), (1, 4), (3, 2), (2, 1), (1, 5), (4, 5), (-1, 2),
+                                                    (-1, 3), (7, 10), (9, 10), (1, 10))]
+            reals = [(n_, v_) for n_, v_ in self.inputs.items() if z3.is_real(v_)]
+            for attempt in range(4):
+                # non-degenerate candidate: pin inputs one by one to random rationals while the path stays feasible
+                pins = []
+                order = reals[:]
+                rng.shuffle(order)
+                for n_, v_ in order:
+                    val = rng.choice(pool)
+                    s2 = z3.Solver()
+                    s2.set("timeout", 2000)
+                    s2.add(*self.solver.cons)
+                    s2.add(*pins)
+                    s2.add(v_ == z3.RealVal(str(val)))
+                    if _timed_check(s2) == "sat":
+                        pins.append(v_ == z3.RealVal(str(val)))
+                s2 = z3.Solver()
+                s2.set("timeout", 5000)
+                s2.add(*self.solver.cons)
+                s2.add(*pins)
+                if _timed_check(s2) != "sat":
+                    continue
+                m2 = s2.model()
+                ev = z3.simplify(m2.eval(c, model_completion=True))
+                if z3.is_false(ev):
+                    model = self.extract_model(m2)
+                    status = "violated"
+                    break
         self.last_query = s
         res = CheckResult(label, status, model, detail, self.path_id)
         self.results.append(res)
